@@ -197,6 +197,9 @@ func (root *Root) regField(obj *Object, fd *FieldDef, goField string, args ...st
 	obj.mu.Lock()
 	meta := obj.meta
 	obj.mu.Unlock()
+	if meta == nil {
+		return fmt.Errorf("%w: no object to resolve field %s of %s", ErrMeta, goField, obj.N)
+	}
 	if meta.Kind() == reflect.Ptr {
 		meta = meta.Elem()
 	}
